@@ -186,11 +186,13 @@ def run(model, col, tier):
         if isinstance(e1, ast.Call) and dotted(e1.func) == "max":
             st_end = sorted(unparse(a) for a in e1.args)
     acc = unparse(tup[0].targets[0]) if tup else "result"
-    good = st_start == sorted([f"{acc}[0]", "arg.GetBegin()"]) and st_end == sorted([f"{acc}[1]", "arg.GetEnd()"])
+    loops = [n for n in ast.walk(mg) if isinstance(n, ast.For)]
+    elem = unparse(loops[0].target) if loops else "arg"
+    va = mg.args.vararg.arg if mg.args.vararg else "args"
+    good = st_start == sorted([f"{acc}[0]", f"{elem}.GetBegin()"]) and st_end == sorted([f"{acc}[1]", f"{elem}.GetEnd()"])
     col.check(good, "R20.3", f"{ASTF}::Location.Merge hull", "begin = min of begins, end = max of ends, result = (begin, end)",
               f"hull is computed as start={st_start}, end={st_end}: not min over begins / max over ends", ASTF, mg)
-    loops = [n for n in ast.walk(mg) if isinstance(n, ast.For)]
-    col.check(bool(loops) and unparse(loops[0].iter) == "args[1:]" and "args[0]" in unparse(mg), "R20.3", f"{ASTF}::Location.Merge covers all arguments",
+    col.check(bool(loops) and unparse(loops[0].iter) == f"{va}[1:]" and f"{va}[0]" in unparse(mg), "R20.3", f"{ASTF}::Location.Merge covers all arguments",
               "starts from args[0] and folds in args[1:]", "does not fold all arguments into the hull", ASTF, mg)
     uv = model.cls(UPD, "UpdateLocationsVisitor")
     vg = uv.own_method("v_Generic")
